@@ -898,3 +898,86 @@ func literalMapOf(v ssa.Value) *ssa.MakeMap {
 	}
 	return mm
 }
+
+
+// wrappedError: v is fmt.Errorf(format, args…) whose format has exactly one %w and whose argument list holds exactly
+// one value of type error; that value.
+func wrappedError(v ssa.Value) ssa.Value {
+	call, ok := v.(*ssa.Call)
+	if !ok {
+		return nil
+	}
+	cal := call.Common().StaticCallee()
+	if cal == nil || cal.Pkg == nil || cal.Pkg.Pkg.Path() != "fmt" || cal.Name() != "Errorf" || len(call.Common().Args) != 2 {
+		return nil
+	}
+	k, ok := call.Common().Args[0].(*ssa.Const)
+	if !ok || k.Value == nil || k.Value.Kind() != constant.String || strings.Count(constant.StringVal(k.Value), "%w") != 1 {
+		return nil
+	}
+	sl, ok := call.Common().Args[1].(*ssa.Slice)
+	if !ok {
+		return nil
+	}
+	arr, ok := sl.X.(*ssa.Alloc)
+	if !ok || arr.Referrers() == nil {
+		return nil
+	}
+	var found ssa.Value
+	n := 0
+	for _, r := range *arr.Referrers() {
+		ia, ok := r.(*ssa.IndexAddr)
+		if !ok || ia.Referrers() == nil {
+			continue
+		}
+		for _, u := range *ia.Referrers() {
+			st, ok := u.(*ssa.Store)
+			if !ok || st.Addr != ssa.Value(ia) {
+				continue
+			}
+			x := st.Val
+			for {
+				switch y := x.(type) {
+				case *ssa.ChangeInterface:
+					x = y.X
+					continue
+				case *ssa.MakeInterface:
+					x = y.X
+					continue
+				}
+				break
+			}
+			if x.Type().String() == "error" {
+				found = x
+				n++
+			}
+		}
+	}
+	if n != 1 {
+		return nil
+	}
+	return found
+}
+
+
+// varargsOfLibraryCall: the array is the argument list of a call of a function outside the module (fmt.Errorf, …) —
+// not of the builtin append, whose element stores are what the encoders' byte accounting reads.
+func varargsOfLibraryCall(a *ssa.Alloc) bool {
+	if a.Referrers() == nil {
+		return false
+	}
+	for _, r := range *a.Referrers() {
+		sl, ok := r.(*ssa.Slice)
+		if !ok || sl.Referrers() == nil {
+			continue
+		}
+		for _, u := range *sl.Referrers() {
+			if call, ok := u.(*ssa.Call); ok {
+				if cal := call.Common().StaticCallee(); cal != nil && !inModule(cal) {
+					return true
+				}
+			}
+		}
+	}
+	return false
+}
